@@ -101,9 +101,11 @@ def looks_up(kind, ver, name):
 
 BAD_TYPE_NAMES = [("uppercase", "x-Stixmon-Bad"), ("underscore", "x-stixmon_bad"), ("space", "x-stixmon bad"), ("too-short", "xy"),
                   ("too-long", "x-" + "a" * 249), ("trailing-newline", "x-stixmon-bad\n"), ("unicode", "x-stixmon-bäd"), ("empty", ""),
-                  ("dot", "x-stixmon.bad"), ("slash", "x-stixmon/bad")]
+                  ("dot", "x-stixmon.bad"), ("slash", "x-stixmon/bad"), ("arabic-indic-digit", "x-stixmon-bad-\u0663"), ("fullwidth-digit", "x-stixmon-bad\uff15"),
+                  ("non-ascii-letter-lookalike", "x-stixmon-b\u0430d")]
 BAD_PROP_NAMES = [("too-short", "fo"), ("space", "foo bar"), ("hyphen", "foo-bar"), ("too-long", "p" * 251), ("uppercase", "Foo_bar"),
-                  ("trailing-newline", "foo_bar\n"), ("unicode", "foo_bär"), ("leading-digit-2.1", "1foo_bar")]
+                  ("trailing-newline", "foo_bar\n"), ("unicode", "foo_bär"), ("leading-digit-2.1", "1foo_bar"), ("arabic-indic-digit", "foo_bar\u0663"),
+                  ("fullwidth-digit", "foo_bar\uff15")]
 
 
 def parse_outcome(d, extract, **kw):
@@ -316,6 +318,25 @@ def check_parse(ctx, rng, kind, ver, name, cls, w):
         st6, r6 = parse_outcome(top, (lambda o: o), allow_custom=False, version=ver)
         if st6 == "class":
             ctx.violation("registration-leaks-into-other-category", "strict parse accepted a top-level object of type %r (registered only as %s)" % (name, kind), dict(w, input=top))
+    # ... nor is a name registered as an object, observable or marking thereby an extension type: as a key of `extensions` it is an
+    # unregistered extension, which strict mode refuses
+    if kind != "extension" and looks_up("extension", ver, name) is None:
+        import stix2
+        body = {"prop_one": "v"}
+        if ver == "2.1":
+            host = {"type": "file", "spec_version": "2.1", "id": "file--" + V.uuid_text(rng, 4), "name": "f", "extensions": {name: body}}
+            hget = (lambda o: o["extensions"][name])
+        else:
+            host = {"type": "observed-data", "id": "observed-data--" + V.uuid_text(rng, 4), "created": "2020-01-01T00:00:00.000Z", "modified": "2020-01-01T00:00:00.000Z",
+                    "first_observed": "2020-01-01T00:00:00Z", "last_observed": "2020-01-01T00:00:00Z", "number_observed": 1,
+                    "objects": {"0": {"type": "file", "name": "f", "extensions": {name: body}}}}
+            hget = (lambda o: o["objects"]["0"]["extensions"][name])
+        st8, r8 = parse_outcome(host, hget, allow_custom=False, version=ver)
+        ctx.ev()
+        ctx.count("cross_category_probes")
+        if st8 == "class":
+            ctx.violation("registration-leaks-into-other-category", "strict parse accepted the extension key %r (registered only as %s); its value became %s" % (name, kind, type(r8).__name__),
+                          dict(w, input=host))
     # the other version must not know the name (unless registered there too)
     other = "2.0" if ver == "2.1" else "2.1"
     if looks_up(kind, other, name) is None and kind in ("object",):
